@@ -241,7 +241,7 @@ def run_case(case, ctx):
                     sc2[move] = c
                     ts2 = sorted(set(st[sc2 == c].tolist()))
                     cnt2 = np.array([(st[sc2 == c] == t).sum() for t in ts2], dtype=np.float64)
-                    rr = call(m.get_cluster_mean_waveforms, as_id(c, c + 1))
+                    rr = call(m.get_cluster_mean_waveforms, as_id(c, c + 1), True)
                     ctx.cell('after_inplace_curation')
                     if not rr.ok:
                         ctx.violation('raised', desc, 'get_cluster_mean_waveforms after an in-place update raised %r' % rr.exc,
